@@ -137,7 +137,9 @@ func regexToDFA(regex string) (*auto.DFA, error) {
 		return nil, err
 	}
 
-	d := n.ToDFA().Minimize().EliminateDeadStates().ReindexStates()
+	// The states are not re-indexed here: ReindexStates crashes on automata with a chain of more than 64 states
+	// (e.g. for a{70}), and CombineDFA assigns new indices to the states of all automata anyway.
+	d := n.ToDFA().Minimize().EliminateDeadStates()
 
 	return d, nil
 }
